@@ -18,17 +18,17 @@ pub struct PropSpec {
 pub const PROPS: &[PropSpec] = &[
     PropSpec { id: "C01", families: &[("core", 6), ("stop", 2), ("eff", 2)], borrowed: &[], quick_runs: 96_000,
         rule: "non-trivial: >=2 client threads dispatched to the same store and their dispatch calls overlapped in time, with >=2 actions reduced" },
-    PropSpec { id: "C02", families: &[("core", 5), ("bp", 3), ("eff", 2)], borrowed: &[], quick_runs: 96_000,
+    PropSpec { id: "C02", families: &[("core", 4), ("bp", 2), ("eff", 2), ("mw", 2)], borrowed: &[], quick_runs: 96_000,
         rule: "non-trivial: two dispatches from different threads were ordered by real time (one returned before the other was invoked) or by program order, and both were reduced" },
     PropSpec { id: "C03", families: &[("core", 5), ("mw", 3), ("sub", 3)], borrowed: &[], quick_runs: 96_000,
         rule: "non-trivial: a whole-run direct subscriber existed and the history contains both notifying and non-notifying (Keep or suppressed) actions" },
     PropSpec { id: "C04", families: &[("stop", 10)], borrowed: &[], quick_runs: 96_000,
         rule: "non-trivial: a dispatch call overlapped stop() in time, or the queue held a backlog >= 1 when stop() was invoked" },
-    PropSpec { id: "C05", families: &[("bp", 10)], borrowed: &[], quick_runs: 64_000,
+    PropSpec { id: "C05", families: &[("bp", 7), ("stop", 3)], borrowed: &[], quick_runs: 64_000,
         rule: "non-trivial: a dispatch blocked on the full dispatch queue (seam event Block on ChanSend of the store's queue) under BlockOnFull" },
     PropSpec { id: "C06", families: &[("bp", 10)], borrowed: &[], quick_runs: 64_000,
         rule: "non-trivial: a drop policy actually discarded an action (metric or Err result) in the run" },
-    PropSpec { id: "C07", families: &[("core", 5), ("mw", 5)], borrowed: &[], quick_runs: 96_000,
+    PropSpec { id: "C07", families: &[("core", 4), ("mw", 4), ("sub", 2)], borrowed: &[], quick_runs: 96_000,
         rule: "non-trivial: >=2 kinds of reducer-context callbacks ran for >=2 actions while another client thread was runnable" },
     PropSpec { id: "C08", families: &[("core", 10)], borrowed: &[], quick_runs: 96_000,
         rule: "non-trivial: a get_state() call overlapped a pipeline instance in time, or a read happened inside a callback" },
